@@ -133,11 +133,15 @@ def configs(tier, seed):
                     continue
                 out.append({'model': model, 'm': 2, 'n': 1, 'variant': 'uvw', 'P': P, 'cores': cores, 'group': 'uvw-chunking:%s' % model})
         out.append({'model': model, 'm': 3, 'n': 2, 'variant': 'uvw', 'P': 2, 'cores': None, 'group': 'uvw-default-cores:%s' % model})
+        out.append({'model': model, 'm': 4, 'n': 1, 'variant': 'uvw', 'P': 1, 'cores': 1, 'group': 'uvw-order-4-5:%s' % model})
+        out.append({'model': model, 'm': 1, 'n': 5, 'variant': 'uvw', 'P': 1, 'cores': 2, 'group': 'uvw-order-4-5:%s' % model})
     for model in ('plate', 'cpanel'):
         for NL in (0, 1):
             out.append({'model': model, 'm': 2, 'n': 2, 'variant': 'strain', 'NL': NL, 'P': 2, 'cores': 2, 'group': 'strain:%s' % model})
             out.append({'model': model, 'm': 2, 'n': 2, 'variant': 'stress', 'NL': NL, 'P': 2, 'cores': 1, 'group': 'stress:%s' % model})
             out.append({'model': model, 'm': 1, 'n': 1, 'variant': 'strain', 'NL': NL, 'P': 1, 'cores': 1, 'group': 'strain-single-term:%s' % model})
+        out.append({'model': model, 'm': 4, 'n': 1, 'variant': 'strain', 'NL': 0, 'P': 1, 'cores': 1, 'group': 'strain-order-4-5:%s' % model})
+        out.append({'model': model, 'm': 1, 'n': 5, 'variant': 'stress', 'NL': 0, 'P': 1, 'cores': 1, 'group': 'strain-order-4-5:%s' % model})
         for cores in range(1, maxc + 1):
             for P in ((1, 4, 5) if quick else range(1, maxp + 1)):
                 out.append({'model': model, 'm': 1, 'n': 2, 'variant': 'strain', 'NL': 0, 'P': P, 'cores': cores, 'group': 'strain-chunking:%s' % model})
